@@ -66,7 +66,16 @@ func TestC07Stream(t *testing.T) {
 		base := frames[0]
 		for i := 0; i < nr; i++ {
 			var b []byte
-			switch gen.Pick(rt, "rejected_kind", 3) {
+			switch gen.Pick(rt, "rejected_kind", 4) {
+			case 3: // a flow-removed whose match carries a field number nobody decodes (class 0x8000 or 0x0001)
+				b = make([]byte, 64)
+				b[0], b[1] = 4, 11
+				b[48+1] = 1  // match type OXM
+				b[48+3] = 12 // match length: header + one 8-byte TLV
+				cls := []uint16{0x8000, 0x0001}[gen.Pick(rt, "rej_oxm_class", 2)]
+				binary.BigEndian.PutUint16(b[52:], cls)
+				b[54] = byte(rapid.IntRange(45, 63).Draw(rt, "rej_oxm_field")) << 1
+				b[55] = 4
 			case 0: // a type code nobody decodes
 				n := rapid.IntRange(0, 40).Draw(rt, "rej_body")
 				b = make([]byte, 8+n)
